@@ -1,2 +1,3 @@
+@property
 def spec(self):
     return FoldReducer.dt.fget(self)
